@@ -82,6 +82,12 @@ def regression():
         Item("E", [Variant("Ab", "unit", [], [aci(True, explicit=False)]), Variant("Cd", "unit", [], [aci(False)])], metas=[EM("aci")]),
         Item("E", []),
         Item("E", [Variant("Only", "named", [Field("String", "s")], [DEFAULT])]),
+        # a variant-level default_with on a STRUCT variant is not consulted: fields come from their own default_with or from Default
+        Item("E", [Variant("Rect", "named", [Field("u8", "w"), Field("u8", "h", ["dw_u8_b"])], [dw("dw_u8")]), Variant("Plain", "unit"),
+                   Variant("Named", "named", [Field("String", "s"), Field("i32", "n")], [ser("nm"), dw("dw_string")])]),
+        # two variants marked default, the EARLIER one disabled as well: the enabled one is the catch-all
+        Item("E", [Variant("Gone", "tuple", [Field("String")], [DISABLED, DEFAULT]), Variant("Red", "unit"), Variant("Other", "tuple", [Field("String")], [DEFAULT])]),
+        Item("E", [Variant("Red", "unit"), Variant("Gone", "named", [Field("String", "x")], [DEFAULT, DISABLED]), Variant("Other", "named", [Field("String", "rest")], [DEFAULT]), Variant("Blue", "unit")]),
         # default next to default_with (variant / field level): the catch-all captures the input, the function is not consulted
         Item("E", [Variant("Red", "unit"), Variant("Other", "tuple", [Field("String")], [DEFAULT, dw("dw_string")]), Variant("Blue", "tuple", [Field("u8")], [dw("dw_u8")])]),
         Item("E", [Variant("Other", "named", [Field("String", "raw", ["dw_string"])], [DEFAULT]), Variant("Red", "unit")]),
@@ -116,8 +122,8 @@ UNI_IDENTS = ["ÉlanVital", "ÜberMensch", "Ωmega", "élanVital2", "straßeName
 
 
 def nonascii():
-    """NON-ASCII identifiers under every style (and none): the expected name comes from the Rust reference on heck (G.resolve_names);
-    the theorems are about ASCII identifiers, so this family is a Rust-vs-Rust differential carried through the model as a spelling"""
+    """NON-ASCII identifiers under every style (and none): the expected name comes from Model/HeckU.v on the probe's character table
+    (G.resolve_names; identifiers with U+03A3 from the Rust reference on heck) and is carried through the rest of the model as a spelling"""
     items = []
     for si, st in enumerate([None] + G.STYLES):
         vs = []
